@@ -131,6 +131,9 @@ var cancelSites = []string{
 	"$.a.double()",
 	"$ ? (@.a > 1).b ? (@ > 2)",
 	"$ ? ((exists($ ? (@.a == 1))) is unknown)",
+	// a second operand / bound evaluated after the first one failed suppressibly
+	"$.a[$.x to $.b]", "$.a[$.x, $.b]", "$.x + $.b", "$.x == $.b", "$ ? (exists(@.a[$.x to $.b]))", "$.a ? (@[$.x to $.b] > 0)",
+	"$.x starts with \"a\"", "-$.x + $.b",
 }
 
 // C20_Sites: the constructs that consume (status, error) pairs.
